@@ -86,3 +86,125 @@ pub fn conv(s: &Schema) -> RSchema {
         _ => RSchema::Undefined,
     }
 }
+
+// ------------------------------------------------------------------------------------------
+// mirror -> savefile::Schema (with layout annotations, through the public unsafe constructors)
+
+use savefile::{AbiMethod, AbiMethodArgument, AbiMethodInfo, SchemaArray, VecOrStringLayout};
+
+pub fn layout_from(b: u8) -> VecOrStringLayout {
+    match b {
+        1 => VecOrStringLayout::DataCapacityLength,
+        2 => VecOrStringLayout::DataLengthCapacity,
+        3 => VecOrStringLayout::CapacityDataLength,
+        4 => VecOrStringLayout::LengthDataCapacity,
+        5 => VecOrStringLayout::CapacityLengthData,
+        6 => VecOrStringLayout::LengthCapacityData,
+        7 => VecOrStringLayout::LengthData,
+        8 => VecOrStringLayout::DataLength,
+        _ => VecOrStringLayout::Unknown,
+    }
+}
+
+fn to_prim(p: RPrim, layout: u8) -> SP {
+    match p {
+        RPrim::I8 => SP::schema_i8,
+        RPrim::U8 => SP::schema_u8,
+        RPrim::I16 => SP::schema_i16,
+        RPrim::U16 => SP::schema_u16,
+        RPrim::I32 => SP::schema_i32,
+        RPrim::U32 => SP::schema_u32,
+        RPrim::I64 => SP::schema_i64,
+        RPrim::U64 => SP::schema_u64,
+        RPrim::Str => SP::schema_string(layout_from(layout)),
+        RPrim::F32 => SP::schema_f32,
+        RPrim::F64 => SP::schema_f64,
+        RPrim::Bool => SP::schema_bool,
+        RPrim::Canary1 => SP::schema_canary1,
+        RPrim::I128 => SP::schema_i128,
+        RPrim::U128 => SP::schema_u128,
+        RPrim::Char => SP::schema_char,
+    }
+}
+
+fn to_fields(fs: &[RField]) -> Vec<Field> {
+    fs.iter().map(|f| unsafe { Field::unsafe_new(f.name.clone(), Box::new(to_savefile(&f.value)), f.offset.map(|o| o as usize)) }).collect()
+}
+
+fn to_traitdef(t: &RTraitDef) -> AbiTraitDefinition {
+    AbiTraitDefinition {
+        name: t.name.clone(),
+        sync: t.sync,
+        send: t.send,
+        methods: t
+            .methods
+            .iter()
+            .map(|m| AbiMethod {
+                name: m.name.clone(),
+                info: AbiMethodInfo {
+                    return_value: to_savefile(&m.ret),
+                    receiver: match m.receiver {
+                        101 => ReceiverType::Mut,
+                        102 => ReceiverType::PinMut,
+                        _ => ReceiverType::Shared,
+                    },
+                    arguments: m.args.iter().map(|a| AbiMethodArgument { schema: to_savefile(a) }).collect(),
+                    async_trait_heuristic: m.is_async,
+                },
+            })
+            .collect(),
+    }
+}
+
+pub fn to_savefile(s: &RSchema) -> Schema {
+    match s {
+        RSchema::Struct { name, fields, size, align } => {
+            Schema::Struct(SchemaStruct::new_unsafe(name.clone(), to_fields(fields), size.map(|x| x as usize), align.map(|x| x as usize)))
+        }
+        RSchema::Enum { name, variants, discr_size, explicit_repr, size, align } => Schema::Enum(SchemaEnum::new_unsafe(
+            name.clone(),
+            variants.iter().map(|v| Variant { name: v.name.clone(), discriminant: v.discr, fields: to_fields(&v.fields) }).collect(),
+            *discr_size,
+            *explicit_repr,
+            size.map(|x| x as usize),
+            align.map(|x| x as usize),
+        )),
+        RSchema::Prim(p, l) => Schema::Primitive(to_prim(*p, *l)),
+        RSchema::Vector(i, l) => Schema::Vector(Box::new(to_savefile(i)), layout_from(*l)),
+        RSchema::Undefined => Schema::Undefined,
+        RSchema::ZeroSize => Schema::ZeroSize,
+        RSchema::Option(i) => Schema::SchemaOption(Box::new(to_savefile(i))),
+        RSchema::Array(n, i) => Schema::Array(SchemaArray { item_type: Box::new(to_savefile(i)), count: *n as usize }),
+        RSchema::Custom(c) => Schema::Custom(c.clone()),
+        RSchema::Boxed(i) => Schema::Boxed(Box::new(to_savefile(i))),
+        RSchema::FnClosure(m, t) => Schema::FnClosure(*m, to_traitdef(t)),
+        RSchema::Slice(i) => Schema::Slice(Box::new(to_savefile(i))),
+        RSchema::Str => Schema::Str,
+        RSchema::Reference(i) => Schema::Reference(Box::new(to_savefile(i))),
+        RSchema::Trait(m, t) => Schema::Trait(*m, to_traitdef(t)),
+        RSchema::Recursion(d) => Schema::Recursion(*d as usize),
+        RSchema::StdIoError => Schema::StdIoError,
+        RSchema::Future(t, a, b, c) => Schema::Future(to_traitdef(t), *a, *b, *c),
+        RSchema::UninitSlice => Schema::UninitSlice,
+        RSchema::UtcTimestamp => Schema::UtcTimestamp,
+    }
+}
+
+/// Library serialization of a schema at library format version `f`
+pub fn lib_write(s: &Schema, f: u16) -> Result<Vec<u8>, savefile::SavefileError> {
+    let mut buf = Vec::new();
+    {
+        let mut ser = Serializer::<Vec<u8>>::new_raw(&mut buf, f as u32);
+        s.serialize(&mut ser)?;
+    }
+    Ok(buf)
+}
+/// Library deserialization of a schema section; returns the schema and bytes consumed
+pub fn lib_read(data: &[u8], f: u16) -> Result<(Schema, usize), savefile::SavefileError> {
+    let mut cur = std::io::Cursor::new(data);
+    let s = {
+        let mut de = savefile::new_schema_deserializer(&mut cur, f);
+        Schema::deserialize(&mut de)?
+    };
+    Ok((s, cur.position() as usize))
+}
